@@ -733,6 +733,10 @@ func c11(c *an.Ctx) {
 		}
 	})
 
+	c.Check("R-BOOL", "applySort decision table: no SortBy returns the list, an unknown field is an error, a registered field is resolved through the batch resolver exactly under Batch && UseBatchFunc and per node otherwise; the requested order (or the default) reaches the sort function", 2, func(o *an.O) {
+		ruleApplySortTable(c, o)
+	})
+
 	c.Check("R-BOOL", "applyTextFilter decision table: no filter text returns the list; a selected filter field goes into exactly one of the plain / expensive / batch passes; a pass that has a field runs; an element survives iff some pass kept it; default search tokens without a filter type", 4, func(o *an.O) {
 		ruleTextFilterTable(c, o)
 	})
